@@ -123,6 +123,18 @@ func (v *authorizer) Authorize() error {
 	// succeeds: the authorizer can no longer be saved
 	v.dirty = true
 
+	// the rules the authorizer holds itself. The evaluation below adds the rules of the token's
+	// authority block and then removes every rule from the world (so that none of them is applied
+	// to the facts of later blocks); the authorizer's own rules are put back on return, so that
+	// facts added after this call are still subject to them the next time it is evaluated.
+	ownRules := append([]datalog.Rule{}, v.world.Rules()...)
+	defer func() {
+		v.world.ResetRules()
+		for _, r := range ownRules {
+			v.world.AddRule(r)
+		}
+	}()
+
 	// if we load facts from the verifier before
 	// the token's fact and rules, we might get inconsistent symbols
 	// token ements should first be converted to builder elements
